@@ -34,7 +34,7 @@ package processor
 // state at the head of the iteration, delta the entry's age read in this iteration.
 //@ pred exhausted(s *vaaState) = (s.ourMsg != nil && s.retryCount >= 14400) || (s.ourMsg == nil && s.retryCount >= 10)
 //@ func (p *Processor) handleCleanup(ctx context.Context)
-//@   props C14 C13 C01
+//@   props C01 C02 C03 C04 C07 C13 C14
 //@   ensures [progress-kept] progressKept(p)
 //@   requires Inv(p)
 //@   requires InvSig(p)
@@ -117,7 +117,7 @@ package processor
 // ---------------------------------------------------------------- no-panic sweep over the handlers (C13)
 
 //@ func (p *Processor) broadcastSignedVAA(v *vaa.VAA)
-//@   props C13 C01 C02 C03 C14
+//@   props C01 C02 C03 C04 C07 C13 C14
 //@   requires p != nil && vaa.wfVAA(v) && len(v.Signatures) <= 255
 //@   requires [quorum-signed] marked("quorumSigned", v)
 //@   ensures [sent-once] nsent(p.sendC) == old(nsent(p.sendC)) + 1
@@ -138,7 +138,7 @@ package processor
 //@ pure signedBy(p *Processor, m *gossipv1.SignedObservation, gs *common.GuardianSet) = cntKeys(domOf(entryOf(p, m).signatures), gs.Keys, len(gs.Keys))
 
 //@ func (p *Processor) handleObservation(ctx context.Context, m *gossipv1.SignedObservation)
-//@   props C13 C01 C02 C03 C07
+//@   props C01 C02 C03 C04 C07 C13 C14
 //@   ensures [progress-kept] progressKept(p)
 //@   ensures [reject-bad-signature] !old(len(m.Hash) == 32 && len(m.Signature) == 65 && ecrec_ok(from32(m.Hash), from65(m.Signature))) ==> untouched(p)
 //@   ensures [reject-address-mismatch] old(len(m.Hash) == 32 && len(m.Signature) == 65 && ecrec_ok(from32(m.Hash), from65(m.Signature)) && vaa.pk2addr(ecrec(from32(m.Hash), from65(m.Signature))) != b2a(m.Addr)) ==> untouched(p)
@@ -170,7 +170,7 @@ package processor
 //@     invariant [sigs-count] len(sigs) == cntKeys(domOf(p.state.vaaSignatures[hash].signatures), gs.Keys, $i)
 
 //@ func (p *Processor) broadcastSignature(v *vaa.VAA, signature []byte, txhash []byte)
-//@   props C13 C01 C02 C14
+//@   props C01 C02 C03 C04 C07 C13 C14
 //@   ensures [progress-kept] progressKept(p)
 //@   ensures [records-own-observation] indom(p.state.vaaSignatures, hexs(bytes32(vaa.digestOf(v)))) && p.state.vaaSignatures[hexs(bytes32(vaa.digestOf(v)))].ourVAA == v && p.state.vaaSignatures[hexs(bytes32(vaa.digestOf(v)))].gs == p.gs && p.state.vaaSignatures[hexs(bytes32(vaa.digestOf(v)))].ourMsg != nil
 //@   ensures [broadcasts-observation] nsent(p.sendC) == old(nsent(p.sendC)) + 1
@@ -193,7 +193,7 @@ package processor
 //@   nopanic C13
 
 //@ func (p *Processor) handleMessage(ctx context.Context, k *common.MessagePublication)
-//@   props C13 C01 C02 C04
+//@   props C01 C02 C03 C04 C07 C13 C14
 //@   ensures [progress-kept] progressKept(p)
 //@   ensures [governance-never-signed] old(k.EmitterAddress == p.governanceEmitterAddress && k.EmitterChain == p.governanceChainId) ==> unchanged("chan") && unchanged("vaaState.*") && unchanged("map[string]*vaaState")
 //@   ensures [dropped-without-set] old(p.gs) == nil ==> unchanged("chan") && unchanged("vaaState.*") && unchanged("map[string]*vaaState")
@@ -212,7 +212,7 @@ package processor
 //@   nopanic C13
 
 //@ func (p *Processor) handleInjection(ctx context.Context, v *vaa.VAA)
-//@   props C13 C01 C02 C03 C14
+//@   props C01 C02 C03 C04 C07 C13 C14
 //@   ensures [progress-kept] progressKept(p)
 //@   requires Inv(p) && v != nil
 //@   requires InvSig(p)
@@ -223,7 +223,7 @@ package processor
 //@   nopanic C13
 
 //@ func (p *Processor) handleInboundSignedVAAWithQuorum(ctx context.Context, m *gossipv1.SignedVAAWithQuorum)
-//@   props C13 C01 C02 C07 C06
+//@   props C01 C02 C03 C04 C06 C07 C13 C14
 //@   ensures [progress-kept] progressKept(p)
 //@   ensures [never-publishes] unchanged("chan") && unchanged("vaaState.*") && unchanged("map[string]*vaaState")
 //@   requires Inv(p) && m != nil
@@ -240,7 +240,7 @@ package processor
 // guardian-set updates, injections and ticks" is "Inv is preserved by every handler from
 // every state satisfying it, under nondeterministic choice of the next event".
 //@ func (p *Processor) Run(ctx context.Context) (err error)
-//@   props C13 C01 C02 C03 C14
+//@   props C01 C02 C03 C04 C07 C13 C14
 //@   requires Inv(p) && p.gst != nil && InvSig(p)
 //@   modifies *
 //@   nopanic C13
@@ -255,7 +255,7 @@ package processor
 // queue, key and the governance emitter exactly as the caller passed them: the handlers'
 // contracts speak about these fields.
 //@ func NewProcessor(ctx context.Context, d *db.Database, lockC chan *common.MessagePublication, setC chan *common.GuardianSet, sendC chan []byte, obsvC chan *gossipv1.SignedObservation, obsvReqSendC chan<- *gossipv1.ObservationRequest, injectC chan *vaa.VAA, signedInC chan *gossipv1.SignedVAAWithQuorum, guardianSigner ecdsasigner.ECDSASigner, gst *common.GuardianSetState, attestationEvents *reporter.AttestationEventReporter, notifier *discord.DiscordNotifier, governanceChainId vaa.ChainID, governanceEmitterAddress vaa.Address) (p *Processor)
-//@   props C01 C02 C13 C14
+//@   props C01 C02 C03 C04 C07 C13 C14
 //@   ensures [queues-as-passed] p != nil && p.lockC == lockC && p.setC == setC && p.sendC == sendC && p.obsvC == obsvC && p.obsvReqSendC == obsvReqSendC && p.injectC == injectC && p.signedInC == signedInC
 //@   ensures [parts-as-passed] p.db == d && p.gst == gst && p.guardianSigner == guardianSigner && p.attestationEvents == attestationEvents && p.notifier == notifier
 //@   ensures [governance-emitter-as-configured] p.governanceChainId == governanceChainId && p.governanceEmitterAddress == governanceEmitterAddress
